@@ -735,6 +735,9 @@ func c18fClass(ros bool, evs []c18fEv) string {
 
 func evalC18Fine(ros bool, steps []string, reps int) Result {
 	reps = max(reps, 1)
+	// every case starts with the full wait bound again: one late goroutine (a busy machine) must not
+	// make the cases that follow it in this process fail too
+	c18fLateSeen.Store(false)
 	var firstImpl, firstBad, badDirect string
 	var firstEvs, badEvs []c18fEv
 	distinct := map[string]bool{}
